@@ -230,8 +230,10 @@ static void run_k13(void *a_)
     if (FF_IS_HRR(k->ff)) {
         int grp = 0;
         if (FF_IS_SAME(k->ff)) grp = ch.sh[0].group;
-        else for (int i = 0; i < ch.ngroups && !grp; i++) { int have = 0; for (int j = 0; j < ch.nshares; j++) have |= ch.sh[j].group == ch.groups[i]; if (!have && atk_supports(ch.groups[i])) grp = ch.groups[i]; }
+        else { static const int pref[3] = { 0x001d, 0x0017, 0x0018 };           /* a group the client supports but sent no share for: x25519, else P-256, else P-384 */
+            for (int p = 0; p < 3 && !grp; p++) { int sup = 0, have = 0; for (int i = 0; i < ch.ngroups; i++) sup |= ch.groups[i] == pref[p]; for (int j = 0; j < ch.nshares; j++) have |= ch.sh[j].group == pref[p]; if (sup && !have) grp = pref[p]; } }
         if (!grp) { vf_incon("keyless13: no group to ask for in a HelloRetryRequest"); return; }
+        vf_statf(1, "k13_hrr_%s_asks_%s", FF_IS_SAME(k->ff) ? "same" : "other", gname(grp));
         tr[0] = 254; tr[1] = 0; tr[2] = 0; tr[3] = 32; sha256(ch.msg, ch.len, tr + 4); trl = 36;          /* message_hash(ClientHello1), RFC 8446 4.4.1 */
         el = 0; memcpy(exts + el, "\x00\x2b\x00\x02\x03\x04", 6); el += 6;
         memcpy(exts + el, "\x00\x33\x00\x02", 4); el += 4; exts[el++] = (u8) (grp >> 8); exts[el++] = (u8) grp;
